@@ -344,6 +344,7 @@ class ContinuousJsrun(AgentSchedulingComponent):
         lfs_per_node   = self._rm.info.lfs_per_node
         mem_per_node   = self._rm.info.mem_per_node
 
+        ranks_per_node = td['ranks_per_node']
         cores_per_slot = td['cores_per_rank']
         gpus_per_slot  = td['gpus_per_rank']
         lfs_per_slot   = td['lfs_per_rank']
@@ -397,6 +398,11 @@ class ContinuousJsrun(AgentSchedulingComponent):
         tmp = list()
         slots_per_node = int(m.floor(cores_per_node / cores_per_slot))
         tmp.append([cores_per_node, cores_per_slot, slots_per_node])
+
+        if ranks_per_node:
+            # a slot hosts `ranks_per_slot` ranks
+            slots_per_node = min(slots_per_node,
+                                 ranks_per_node // ranks_per_slot)
 
         if gpus_per_slot:
             slots_per_node = min(slots_per_node,
